@@ -21,6 +21,8 @@ pub struct Inner {
     pub reads: usize,
     /// sizes of the buffers offered by the reader on each read
     pub offered: Vec<usize>,
+    /// number of bytes handed over on each read
+    pub delivered: Vec<usize>,
 }
 
 #[derive(Clone, Default)]
@@ -70,6 +72,7 @@ impl AsyncRead for Wire {
         if let Some(mut c) = g.inbound.pop_front() {
             g.offered.push(buf.remaining());
             let n = c.len().min(buf.remaining());
+            g.delivered.push(n);
             buf.put_slice(&c[..n]);
             if n < c.len() {
                 let rest = c.split_off(n);
